@@ -5,7 +5,7 @@
                    (as repaired by C01-qmark-pair and C01-attr-blanks):
                      mark(t)        a token that IS such a mark becomes NUL c NUL, every other token is itself   -> `markTok`
                      ''.join(...).strip() per selector of the list, joined by ',$$'                               -> `joinParts`
-                     .replace('\0', ws)  .replace('$$', nl)                                                       -> `replaceAll`
+                     .replace('\0', ws)  .replace('$$', nl)                                                       -> `replaceChar`, `replaceDollars`
                      re.split(r'("[^"]*"|\'[^\']*\')', name): quoted pieces are kept, in the others
                      .replace('  ', ' ')                                                                          -> `collapseOutside`
   The tokens come from the lexer and contain no NUL.
